@@ -29,6 +29,8 @@ type FuncReport struct {
 	LibUsed   []string
 	Loops     int
 	LoopsInv  int
+	NoInvLoops []string
+	InheritedLoops map[string]bool
 	GoStmts   []string
 	LocksNoInv []string
 	Secs      float64
@@ -94,6 +96,22 @@ func VerifyFunc(w *World, rel string, c *Contract, fn *ssa.Function) *FuncReport
 	x.usedGhost = map[string]bool{}
 	x.loopHeapMods = map[string][]string{}
 	x.initGuards()
+	if c.Aliases == nil {
+		// the header's names are bound by position, so renaming a parameter or
+		// the receiver in the source does not detach the contract
+		hasRecv := fn.Signature.Recv() != nil
+		n := len(fn.Params)
+		if hasRecv && len(c.ParamNames) == n-1 {
+			cc := *c
+			cc.Aliases = append([]string{c.RecvName}, c.ParamNames...)
+			c = &cc
+		} else if !hasRecv && len(c.ParamNames) == n && n > 0 {
+			cc := *c
+			cc.Aliases = append([]string{}, c.ParamNames...)
+			c = &cc
+		}
+	}
+	x.contract = c
 	rep := &FuncReport{Func: x.fnName, Pkg: c.Pkg, Key: c.Key, Props: c.Props}
 
 	func() {
@@ -136,6 +154,9 @@ func VerifyFunc(w *World, rel string, c *Contract, fn *ssa.Function) *FuncReport
 			for i, fv := range fn.FreeVars {
 				if i < len(bind) && bind[i].Loc != nil {
 					env.vars[fv.Name()] = x.loadLoc(st2, bind[i].Loc, nil, "")
+					if a := x.freeVarAlias(fn, fv); a != "" {
+						env.vars[a] = env.vars[fv.Name()]
+					}
 				}
 			}
 			x.bindResults(env, c, fn, res)
@@ -234,6 +255,8 @@ func VerifyFunc(w *World, rel string, c *Contract, fn *ssa.Function) *FuncReport
 	rep.LocksNoInv = sortedKeys(x.locksNoInv)
 	rep.Loops = len(x.info(fn).loops)
 	rep.LoopsInv = len(c.Loops)
+	rep.NoInvLoops = sortedKeys(x.noInvLoops)
+	rep.InheritedLoops = x.inheritedLoops
 	rep.Secs = time.Since(t0).Seconds()
 	return rep
 }
@@ -429,7 +452,10 @@ func Discharge(obls []*Obligation, timeoutS int, confirm bool, workers int) {
 					t = ob.Timeout
 				}
 				mu.Lock()
-				already := failedNames[ob.Name]
+				// (an instance on a tainted path decides nothing: only an untainted
+				// failure ends the search, and tainted instances are not worth a
+				// run once one of them has failed)
+				already := failedNames[ob.Name] || (ob.Taint != "" && failedNames[ob.Name+"\x00tainted"])
 				mu.Unlock()
 				if already {
 					ob.Result = SolverResult{Status: "skipped", Solver: "-", Output: "another instance of this obligation already failed"}
@@ -447,7 +473,11 @@ func Discharge(obls []*Obligation, timeoutS int, confirm bool, workers int) {
 				}
 				if ob.Result.Status != "unsat" {
 					mu.Lock()
-					failedNames[ob.Name] = true
+					if ob.Taint == "" {
+						failedNames[ob.Name] = true
+					} else {
+						failedNames[ob.Name+"\x00tainted"] = true
+					}
 					mu.Unlock()
 				}
 			}
